@@ -1001,7 +1001,7 @@ static void unit_boundary(int part) {
 			}
 		}
 		// more than 65535 SURVIVORS (FO4 shapes count triangles in 32 bits): every triangle but one per cycle survives
-		for (ll cnt : {65536ll, 65537ll, 70000ll}) {
+		for (ll cnt : {81919ll, 81920ll, 81921ll, 90000ll}) { // 4 of 5 survive: 65535, 65536, 65537, 72000 survivors
 			TriLst t = TLcycle({Triangle(0, 1, 2), Triangle(2, 1, 0), Triangle(1, 0, 2), Triangle(0, 1, 2), Triangle(1, 2, 3)}, cnt);
 			for (int del = 0; del < 2; del++) {
 				case_applymap<int, int>(t.v, t.json, map, "[2,1,0,-1]", del != 0);
